@@ -1,25 +1,106 @@
-"""C05 string-keyed map (draft)."""
+"""C05 string-keyed open-addressing map (Lib/structs/map.c): dictionary semantics for every key set and history."""
 from vf.runner import Job, fl
 
 SRC = ["Lib/structs/map.c", "Lib/utils/mem.c"]
 HASH = fl("hashmap_hash_string", "map.c")
 REHASH = fl("hashmap_rehash", "map.c")
+# memhook is set by the harnesses to their logging allocator (key-buffer log, typed arenas for tables)
 FP = [(r"memhook\._free$", ["vf_free"]), (r"memhook\._calloc$", ["vf_calloc"]), (r"memhook\._malloc$", ["vf_malloc"]),
-      (r"libmodule_logger\.", ["vf_log_noop"]), (r"dtor", ["vf_dtor"])]
-META = {}
+      (r"libmodule_logger\.", ["vf_log_noop"]), (r"dtor$", ["vf_dtor"])]
+FP_CB = FP + [(r"::fn$", ["vf_cb"])]
+STR = {"strcmp.0": 3, "strlen.0": 3}          # keys are 1-character strings; the bound is checked (unwinding assertions)
+
+SYM_STATE = ["table contents (which key in which slot, which slots empty)", "hash home of every key (full size_t)",
+             "key ownership mode (none / M_MAP_KEY_AUTOFREE / M_MAP_KEY_DUP)", "M_MAP_VAL_ALLOW_UPDATE",
+             "destructor installed"]
+
+META = {
+    "functions": ["map.c: m_map_new, m_map_put, hashmap_put, hashmap_rehash, hashmap_entry_find, hashmap_calc_index, "
+                  "hashmap_table_min_size_calc, m_map_get, m_map_contains, m_map_len, m_map_remove, clear_elem, "
+                  "m_map_itr_new, m_map_itr_next, m_map_itr_remove, m_map_itr_get_key, m_map_itr_get_data, "
+                  "m_map_itr_set_data, m_map_iterate, m_map_clear, m_map_free", "utils/mem.c: mem_strdup"],
+    "stubs": ["hashmap_hash_string (static, body cut) = homes[key identity], an arbitrary function chosen by the solver "
+              "(the real djb2+murmur hash is one instance; it is used unchanged by /verif/repro/C05_*.c)",
+              "hashmap_rehash = assume(false) in the step/iterator jobs only (growth is the grow jobs' business)",
+              "memhook = harness allocator: malloc/calloc/free plus a log of key buffers; tables and the map object "
+              "come from static typed arenas, each handed out once and zeroed (calloc contract)",
+              "libmodule_logger = empty variadic"],
+    "bounds": "quick: table size 4, 3 keys (single-character strings), one operation / one whole iteration from an "
+              "arbitrary table under the representation invariant; growth 4->8 with 2 or 3 entries; API scripts of 2 "
+              "operations from m_map_new on a table used as 4 slots.  thorough: additionally table size 8 with 4 keys "
+              "(put/remove/get/clear/free/iterator/iterate), growth 4->8 with 4 keys, scripts of 3 operations.  "
+              "At most one growth per put (a second one would be reported).",
+    "outside": "table sizes other than 4/8 (->8/16) in the solver runs - the shipped size 256 only through the native "
+               "reproducers; more than 3-4 distinct keys; keys longer than one character (the hash is abstracted, "
+               "strcmp is exercised on 1-character strings); allocation failure; put/remove of OTHER entries during an "
+               "iteration (documented as an error by map.c); whether m_map_itr_set_data must run the destructor for "
+               "the overwritten value (the text does not say; 0 or 1 calls accepted); who owns the key buffer of an "
+               "update/refused put in an AUTOFREE-without-DUP map",
+    "assumptions": ["pre-state of the step/iterator/growth jobs = representation invariant of map_common.h (exactly "
+                    "the tables puts can build at that size; asserted again after every operation; established from "
+                    "m_map_new by the script jobs)",
+                    "script jobs: m_map_new's 256-slot table is used as a 4-slot one (table_size overwritten once, right "
+                    "after m_map_new) - map.c has no API for the initial size and 256 symbolic slots did not finish",
+                    "values handed to the map are non-NULL and distinct per entry; the caller keeps a key buffer "
+                    "unchanged while the map refers to it (M_MAP_KEY_DUP excepted: the buffer is scribbled, checked)"],
+}
+
+
+def _job(name, harness, defines, remove, tier, sym, bounds, unwind, fp=FP, **kw):
+    return Job(name, harness, sources=SRC, export_extra=["Lib/structs/map.c"], extra_harness=["common/vf_defs.c"],
+               defines=defines, remove=remove, fp=fp, common_fp=False, unwind=unwind, unwindset=dict(STR),
+               symbolic=sym, bounds=bounds, mem_gb=12, object_bits=10, native={"sources": ["Lib/utils/mem.c"]},
+               timeout=600 if tier == "quick" else 3000, **kw)
+
+
+def _step_jobs(tier, ts, nk):
+    js = []
+    un = ts + 7
+    d = {"TS": ts, "NK": nk, "VF_NO_REHASH": None}
+    b = "table size %d, %d keys, growth paths cut" % (ts, nk)
+    for nm, ops, leak in (("obs", 0x07, False), ("remove", 0x08, False), ("put", 0x10, False), ("clearfree", 0x60, True)):
+        js.append(_job("C05.step.%s.T%d" % (nm, ts), "l0/map_step.c", dict(d, OPS=ops), [HASH, REHASH], tier,
+                       SYM_STATE + ["operation", "key", "value (new, or the one the key already has)"], b, un, leak=leak))
+    js.append(_job("C05.itr.T%d" % ts, "l0/map_itr_step.c", dict(d, OPS=1), [HASH, REHASH], tier,
+                   SYM_STATE + ["edit at every iterator position (none / m_map_itr_remove / m_map_itr_set_data)"], b, un))
+    js.append(_job("C05.iterate.T%d" % ts, "l0/map_itr_step.c", dict(d, OPS=2), [HASH, REHASH], tier,
+                   SYM_STATE + ["set of keys whose entry the callback removes"], b, un, fp=FP_CB))
+    return js
+
+
+def _grow_job(tier, ts, nk, cnt, **kw):
+    d = {"TS": ts, "NK": nk, "CNT": cnt}
+    if ts <= cnt + cnt // 3:
+        d["EXPECT_GROWN"] = None
+    return _job("C05.grow.T%d.N%d.C%d" % (ts, nk, cnt), "l0/map_grow.c", d, [HASH], tier,
+                SYM_STATE + ["key", "value"], "table size %d -> %d, %d keys, %d entries before the put" % (ts, 2 * ts, nk, cnt),
+                2 * ts + 6, **kw)
+
+
+def _script_job(tier, L, keymode=None):
+    d = {"NK": 3, "L": L}
+    if keymode is not None:
+        d["KEYMODE"] = keymode
+    return _job("C05.script.L%d%s" % (L, "" if keymode is None else ".K%d" % keymode), "l0/map_script.c", d, [HASH], tier,
+                ["operation[0..L)", "key[0..L)", "value", "hash home of every key", "M_MAP_VAL_ALLOW_UPDATE",
+                 "destructor installed"] + (["key ownership mode"] if keymode is None else []),
+                "L=%d operations from m_map_new, table used as 4 slots, 3 keys, growing paths cut" % L, 14, leak=True)
+
 
 def jobs(tier):
-    js = []
-    for nm, ops in (("obs", 0x07), ("remove", 0x08), ("put", 0x10), ("clear", 0x20)):
-        js.append(Job("C05.step.%s.T4" % nm, "l0/map_step.c", sources=SRC, extra_harness=["common/vf_defs.c"],
-                  defines={"TS": 4, "NK": 3, "VF_NO_REHASH": None, "OPS": ops}, remove=[HASH, REHASH], export_extra=["Lib/structs/map.c"], fp=FP, common_fp=False,
-                  unwind=10, symbolic=["x"], mem_gb=12, timeout=600))
-    for nm, ops in (("itr", 0x1), ("iterate", 0x2)):
-        js.append(Job("C05.%s.T4" % nm, "l0/map_itr_step.c", sources=SRC, extra_harness=["common/vf_defs.c"],
-                  defines={"TS": 4, "NK": 3, "VF_NO_REHASH": None, "OPS": ops}, remove=[HASH, REHASH], export_extra=["Lib/structs/map.c"], fp=FP + [(r"::fn$", ["vf_cb"])], common_fp=False,
-                  unwind=10, symbolic=["x"], mem_gb=12, timeout=600))
-    js.append(Job("C05.grow.T4", "l0/map_grow.c", sources=SRC, extra_harness=["common/vf_defs.c"],
-                  defines={"TS": 4, "NK": 4}, remove=[HASH], export_extra=["Lib/structs/map.c"], fp=FP, common_fp=False,
-                  unwind=14, symbolic=["x"], mem_gb=12, timeout=600, leak=True))
+    js = _step_jobs(tier, 4, 3)
+    js += [_grow_job(tier, 4, 3, 3), _grow_job(tier, 4, 3, 2)]
+    js += [_script_job(tier, 2)]
+    if tier == "thorough":
+        js += _step_jobs(tier, 8, 4)
+        js += [_grow_job(tier, 4, 4, 3), _grow_job(tier, 4, 4, 2)]
+        js += [_script_job(tier, 3, k) for k in (0, 1, 2)]
     return js
-MANIFEST = {"text": "", "note": ""}
+
+
+PARALLEL = {"quick": 6, "thorough": 8}
+
+MANIFEST = {
+    "text": 'Bounded model checking of all of Lib/structs/map.c with the hash replaced by an arbitrary function of the key: inductive step from an ARBITRARY table satisfying the representation invariant (table size 4 quick / 8 thorough, 3-4 keys, every collision/wrap-around pattern, every flag combination, destructor on/off) through one get/contains/len/remove/put/clear/free, one whole iterator walk with a solver-chosen edit (none/remove/set) at every position, one m_map_iterate with a callback removing a solver-chosen key set, one put that grows the table; plus API scripts from m_map_new that establish the invariant. Oracle: present/value model through the public API, destructor log by value identity, key-buffer allocation log, ghost visited set',
+    "note": 'hash abstracted to homes[key] (real hash only in the native reproducers); sizes 4/8 only (shipped 256 natively); scripts use the 256-slot table of m_map_new as a 4-slot one; m_map_itr_set_data destructor semantics and key-buffer ownership on AUTOFREE-only update/refusal are not asserted (text silent); allocation failure outside',
+}
